@@ -75,3 +75,17 @@ func (ex *Exec) lockOp(c *callCtx, lock bool) Val {
 	return Val{}
 }
 
+
+func init() {
+	// timers: a fresh timer object; its channel is an opaque reference (receives are not modelled)
+	reg("time.NewTimer", func(c *callCtx) Val {
+		ex := c.ex
+		return ex.allocObject(c.st, c.res.At(0).Type().Underlying().(*types.Pointer).Elem())
+	})
+	reg("(*time.Timer).Stop", func(c *callCtx) Val {
+		return c.ex.freshVal(types.Typ[types.Bool], c.st, "timerstop")
+	})
+	reg("(*time.Timer).Reset", func(c *callCtx) Val {
+		return c.ex.freshVal(types.Typ[types.Bool], c.st, "timerreset")
+	})
+}
